@@ -1,12 +1,13 @@
 package main
 
 import (
-	"reflect"
-	"github.com/cosmos/cosmos-sdk/store/prefix"
 	"fmt"
+	"github.com/cosmos/cosmos-sdk/store/prefix"
+	"reflect"
 	"sort"
 	"strings"
 
+	simapp "github.com/KiraCore/sekai/app"
 	govkeeper "github.com/KiraCore/sekai/x/gov/keeper"
 	govtypes "github.com/KiraCore/sekai/x/gov/types"
 	sdk "github.com/cosmos/cosmos-sdk/types"
@@ -67,6 +68,7 @@ var npDecCands = []string{"0", "1", "0.5", "0.500000000000000001", "0.4999999999
 var npStrCands = []string{"moniker,username", "moniker", "username", "Moniker,username", "moniker,username,foo", "moniker,,username", "moniker,1bad", "", "moniker,username,contact", "moniker,user_name9", "moniker,user-name", "moniker, username"}
 
 func runC19(r *Rec) {
+	defer func() { c19Genesis(r, NewWorld(WorldOpts{NAcc: 2, NVal: 1, SudoAccs: []int{0}})) }()
 	w := NewWorld(WorldOpts{NAcc: 6, NVal: 1, SudoAccs: []int{0}})
 	k := w.app.CustomGovKeeper
 	ctx := w.KeeperCtx()
@@ -411,4 +413,116 @@ func runC19(r *Rec) {
 		}
 	}
 	loadModel()
+}
+
+// c19Genesis: the genesis write path. Each case starts a NEW chain from a genesis file whose gov network properties
+// differ from the defaults in one or two fields (boundary values of every field, by reflection over the record); the
+// requested record is shown to the model field by field (`props load`), then `props genesis`: a chain may start only
+// from a valid record, and then every property reads back as requested.
+func c19Genesis(r *Rec, base *World) {
+	r.Mark("genesis path")
+	k0 := base.app.CustomGovKeeper
+	def := *k0.GetNetworkProperties(base.KeeperCtx())
+	type mut struct {
+		name string
+		f    func(p *govtypes.NetworkProperties)
+	}
+	var muts []mut
+	rt := reflect.TypeOf(def)
+	decT := reflect.TypeOf(sdk.Dec{})
+	for i := 0; i < rt.NumField(); i++ {
+		i, f := i, rt.Field(i)
+		switch {
+		case f.Type.Kind() == reflect.Uint64:
+			for _, v := range []uint64{0, 1, 1 << 62} {
+				v := v
+				muts = append(muts, mut{fmt.Sprintf("%s=%d", f.Name, v), func(p *govtypes.NetworkProperties) { reflect.ValueOf(p).Elem().Field(i).SetUint(v) }})
+			}
+		case f.Type.Kind() == reflect.Bool:
+			muts = append(muts, mut{f.Name + "=flip", func(p *govtypes.NetworkProperties) {
+				fv := reflect.ValueOf(p).Elem().Field(i)
+				fv.SetBool(!fv.Bool())
+			}})
+		case f.Type == decT:
+			for _, v := range []string{"0", "1", "1.000000000000000001", "-0.000000000000000001", "0.5"} {
+				v := v
+				muts = append(muts, mut{f.Name + "=" + v, func(p *govtypes.NetworkProperties) {
+					reflect.ValueOf(p).Elem().Field(i).Set(reflect.ValueOf(sdk.MustNewDecFromStr(v)))
+				}})
+			}
+		case f.Type.Kind() == reflect.String:
+			for _, v := range []string{"", "moniker", "moniker,username,contact"} {
+				v := v
+				muts = append(muts, mut{f.Name + "=" + v, func(p *govtypes.NetworkProperties) { reflect.ValueOf(p).Elem().Field(i).SetString(v) }})
+			}
+		}
+	}
+	// ordering rules between two fields
+	muts = append(muts,
+		mut{"MinTxFee>MaxTxFee", func(p *govtypes.NetworkProperties) { p.MinTxFee, p.MaxTxFee = 1000, 10 }},
+		mut{"MinTxFee=MaxTxFee", func(p *govtypes.NetworkProperties) { p.MinTxFee, p.MaxTxFee = 1000, 1000 }},
+		mut{"defaults", func(p *govtypes.NetworkProperties) {}})
+	r.Extra["genesis_mutations"] = len(muts)
+	order := r.Rng.Perm(len(muts))
+	n := 60
+	if r.Tier == "thorough" {
+		n = len(muts)
+	}
+	if n > len(muts) {
+		n = len(muts)
+	}
+	// the two-field cases and the defaults always run
+	pickIdx := append([]int{len(muts) - 1, len(muts) - 2, len(muts) - 3}, order[:n]...)
+	for _, mi := range pickIdx {
+		m := muts[mi]
+		req := def
+		m.f(&req)
+		// the requested record as the per-property getter sees it: written raw (no validation) into a scratch branch
+		cc, _ := base.KeeperCtx().CacheContext()
+		prefix.NewStore(cc.KVStore(base.app.GetKey(govtypes.ModuleName)), govtypes.KeyPrefixNetworkProperties).Set([]byte("property"), base.app.AppCodec().MustMarshal(&req))
+		r.Op("props reset", "ok")
+		for _, id := range npIds() {
+			v, err := k0.GetNetworkProperty(cc, govtypes.NetworkProperty(id))
+			if err != nil {
+				continue
+			}
+			r.Op(fmt.Sprintf("props load %d %d %s", id, v.Value, encS(v.StrValue)), "ok")
+		}
+		want := npDump(cc, k0)
+		var w2 *World
+		started := func() (ok bool) {
+			defer func() {
+				if e := recover(); e != nil {
+					ok = false
+				}
+			}()
+			w2 = NewWorld(WorldOpts{NAcc: 2, NVal: 1, SudoAccs: []int{0}, MutGenesis: func(w *World, gs simapp.GenesisState) {
+				cdc := w.app.AppCodec()
+				var g govtypes.GenesisState
+				cdc.MustUnmarshalJSON(gs[govtypes.ModuleName], &g)
+				g.NetworkProperties = &req
+				gs[govtypes.ModuleName] = cdc.MustMarshalJSON(&g)
+			}})
+			return true
+		}()
+		out := "refused"
+		if started {
+			out = "ok"
+		}
+		r.Op("props genesis", out)
+		r.Count("genesis:" + out)
+		r.Case("genesis/"+m.name+"/"+out, true)
+		if started {
+			ctx2 := w2.KeeperCtx()
+			k2 := w2.app.CustomGovKeeper
+			got := npDump(ctx2, k2)
+			r.Op("props dump", got)
+			r.Count("oracle:C19/genesis")
+			if err := k2.ValidateNetworkProperties(ctx2, k2.GetNetworkProperties(ctx2)); err != nil {
+				r.Fail("C19/genesis/stored-properties-invalid", fmt.Sprintf("a chain started from a genesis with %s and its stored network properties are invalid: %v", m.name, err), []string{"props genesis " + m.name})
+			} else if got != want {
+				r.Fail("C19/genesis/properties-not-as-requested", fmt.Sprintf("a chain started from a genesis with %s; stored properties differ from the genesis record: got %s want %s", m.name, got, want), []string{"props genesis " + m.name})
+			}
+		}
+	}
 }
